@@ -52,12 +52,38 @@ Definition Known04a (w : world) (o : op) : bool :=
   | _ => Known04 T LATEST w o
   end.
 
-(* C05: as Known05, plus the two-model form of the container move *)
+(* copies: copy_clean without the duplicate check on the referrers (implied by the duplicate check on the walk of the copy) *)
+Definition copy_clean_a (w w' : world) (h c : id) : bool :=
+  match w_nodes w h with
+  | Some nh =>
+    match path_unchecked T nh w with
+    | Val (OK path, _) =>
+      let w3 := mkWorld (fun j => if j =? h then Some nh else w_nodes w' j) (w_next w') (w_files w') (w_models w') in
+      let ids := walk (fuel_of w') w' c in
+      match reg_entries T (fuel_of w') w3 path c with
+      | Some (L, R) =>
+        nodupN ids && (N.of_nat (List.length ids) =? w_next w' - w_next w)
+        && nodupb (map fst L) && (identifiable T w' c || is_empty L)
+        && forallb (node_ok T w') ids
+      | None => false
+      end
+    | _ => false
+    end
+  | None => false
+  end.
+
+(* C05: as Known05, plus the two-model form of the container move; copies with the reduced condition *)
 Definition Known05a (w : world) (o : op) : bool :=
   match o with
   | OpMove h mv | OpMoveAt h mv _ =>
     Known05 T tab_el tab_en check_fn LATEST root_attrs w o
     || (negb (same_model w h mv) && negb (identifiable T w mv) && collision_x w h mv)
+  | OpCopy h _ | OpCopyAt h _ _ =>
+    match run_op T tab_el tab_en check_fn LATEST root_attrs o w with
+    | Val (ER _, w') => negb (w_next w' =? w_next w)
+    | Val (OK (VElem c), w') => negb (copy_clean_a w w' h c)
+    | _ => false
+    end
   | _ => Known05 T tab_el tab_en check_fn LATEST root_attrs w o
   end.
 
